@@ -205,6 +205,14 @@ def main():
         if rng.random() < 0.08:
             k = O if rng.random() < 0.5 else 1
             c["explicit"] = ([rng.randrange(0, 64) for _ in range(k)], [rng.getrandbits(31) for _ in range(k)])
+        # graph rewrites change op.type but not the source operator (original_type): 1x1 conv on a 1x1 map -> FullyConnected,
+        # and the reverse direction for symmetry; the scaling rule follows the SOURCE operator
+        c["orig"] = None
+        if not c["away"]:
+            if c["kind"] == "fc" and rng.random() < 0.3:
+                c["orig"] = "conv"
+            elif c["kind"] == "conv" and (kh, kw) == (1, 1) and rng.random() < 0.15:
+                c["orig"] = "fc"
         c["mal"] = None
         if force:
             c.update(force)
@@ -264,6 +272,9 @@ def main():
         if c["kind"] == "tconv":
             op.add_input_tensor(create_const_tensor("oshape", [4], DataType.int32, [1, 8, 8, O]))   # bias is input 3
         op.add_input_tensor(b)
+        if c.get("orig"):
+            op._original_type = OPK[c["orig"]]
+            ck.count("stub_type_differs_from_source_type")
         if c["away"] and c["kind"] in ("conv", "dw"):
             op._original_type = Op.AvgPool      # the only operators vela allows AwayZero on (converted average pools)
             op.rounding_mode = RoundingMode.AwayZero
@@ -432,6 +443,7 @@ def main():
         c["wscales"] = f32(d["wscales"]) if not isinstance(d["wscales"], list) else np.array(d["wscales"], dtype=np.float32)
         c["ifm_scale"], c["ofm_scale"] = f32(d["ifm_scale"]), f32(d["ofm_scale"])
         c["explicit"] = tuple(d["explicit"]) if d.get("explicit") else None
+        c.setdefault("orig", None)
         arch, op, w, b, kernel, bc = build(c)
         po = ck.model([prep_inputs(op, b)])[0]
         res = run_real(arch, op, w, b, kernel, bc, c["offsets"])
@@ -447,7 +459,7 @@ def main():
     n_cases = 25000 if T else 1500
     cases = []
     # the recorded witness first (DESIGN.md section 8 #11), then its neighbours
-    wit = {"acc": Accelerator.Ethos_U65_512, "kind": "conv", "ifm": "int8", "shape": (1, 1, 4, 8), "dil": 1, "wdt": "int8",
+    wit = {"orig": None, "acc": Accelerator.Ethos_U65_512, "kind": "conv", "ifm": "int8", "shape": (1, 1, 4, 8), "dil": 1, "wdt": "int8",
            "wvals": np.random.RandomState(1).randint(-127, 128, (1, 1, 4, 8)).astype(np.int8), "wzp": np.zeros(8, dtype=np.int64),
            "wscales": np.array([0.001 * (i + 1) for i in range(8)], dtype=np.float32), "bias_dt": "int32",
            "bias": [920, -684, -791, 288, -272, 677, -373, -569], "ifm_scale": f32(0.02), "ofm_scale": f32(0.05), "bd": 8,
@@ -910,12 +922,19 @@ def main():
         captured.clear()
         wc.encode_weight_and_scale_tensor = cap
         try:
-            res = pipeline.compile_net(data, opts, name=name, reset=True)
+            res = pipeline.compile_net(data, opts, name=name, reset=False)      # addresses are needed below; reset at the end
         finally:
             wc.encode_weight_and_scale_tensor = orig_enc
         ck.count("compile_" + res.status)
         if res.status != "ok":
+            pipeline.reset_process_state()
             return res
+        try:
+            return _check_compiled(name, data, opts, res)
+        finally:
+            pipeline.reset_process_state()
+
+    def _check_compiled(name, data, opts, res):
         seen = set()
         p_prep, p_items = [], []
         for args, offs, r, hit, wcc in captured:
@@ -925,6 +944,8 @@ def main():
                 continue
             seen.add(ident)
             ck.count("pipe_requests")
+            if op.type != op.original_type:
+                ck.count("pipe_requests_type_differs_from_source_type")
             ck.count("pipe_nslices_%d" % min(len(offs) - 1, 6))
             if len(offs) > 2:
                 ck.count("pipe_multislice")
@@ -932,6 +953,7 @@ def main():
             p_items.append((args, offs, r, hit, wcc))
         pouts = ck.model(p_prep)
         slines, smeta, samel, samemeta = [], [], [], []
+        prep_mismatch = []
 
         def wsecs(t):
             return ",".join(hexs(bytes(t.buffer[x[2] + x[4]: x[2] + x[4] + x[5]])) + f".{x[0]}.{x[1]}" for x in ranges_of(t)) + "|" + t.hw_traversal.name
@@ -949,10 +971,11 @@ def main():
             arch, op, w, b, kernel, bc, _ = args
             rp = real_prep(arch, op, b)
             if po != rp:
-                ck.violation("correspondence prepareScales vs _prepare_scale_and_bias broken on a compiled network",
-                             {"correspondence": "wl_prep", "network": name, "options": opts, "op": op.name, "request": pl[:1000], "model": po[:400], "implementation": rp[:400]},
-                             found_input=False)
-                continue
+                # the Spec below judges the records in the tensor against the model's selection (rule of the SOURCE operator type)
+                prep_mismatch.append({"correspondence": "wl_prep", "network": name, "options": opts, "op": op.name, "request": pl[:1000],
+                                      "model": po[:400], "implementation": rp[:400]})
+                if not po.startswith("ok"):
+                    continue
             qs = parse_qs(po)
             wt, st = r
             scale_holder = st if st is not None else wt
@@ -1010,6 +1033,95 @@ def main():
                 ck.violation(f"{name}: weight buffer(s) {m[1]} of operator {m[0]} cannot hold slice DMA sizes {m[2]} (depth slices {m[3]}, double_buffer_sizes {m[4]})",
                              {"network": name, "options": opts, "op": m[0], "buffer_sizes": m[1], "slice_dma_bytes": m[2], "depth_slices": m[3],
                               "double_buffer_sizes": m[4], "replay": "compile network '%s' with %s" % (name, " ".join(opts))})
+
+        # ---- the FINAL schedule and the EMITTED operations (not the requests made on the way) --------------------
+        # (A) the tensors each operator ends up with vs the depth slices the command generator will iterate
+        from ethosu.vela.high_level_command_stream import NpuStripe
+        f_prep, f_items = [], []
+        sliced_ops = {id(a[0][1]) for a in captured if len(a[1]) > 2}
+        for st_ in res.streams:
+            if st_.sg is None or getattr(st_.sg, "schedule", None) is None:
+                continue
+            for sched_op, cost in st_.sg.schedule.cost_map.items():
+                wt = cost.npu_weights_tensor
+                if wt is None or not isinstance(wt, wc.NpuWeightTensor):
+                    continue
+                op = sched_op.parent_op
+                offs = [int(x) for x in cost.ofm_depth_slices]
+                ident = (id(wt), id(cost.npu_scales_tensor), tuple(offs), id(op))
+                ck.count("final_costs")
+                if len(offs) == 2 and not cost.buffered_weight_tensors and id(op) in sliced_ops:
+                    ck.count("final_unsliced_after_slicing_was_tried")      # the "don't slice or buffer" fallback
+                if ident in seen or op.bias is None:
+                    continue            # exactly a request already judged above (same tensors, same slices, same operator)
+                seen.add(ident)
+                f_prep.append(prep_inputs(op, op.bias))
+                f_items.append((st_.arch, sched_op, cost, offs))
+        f_out = ck.model(f_prep)
+        flines, fmeta = [], []
+        for (arch, sched_op, cost, offs), po in zip(f_items, f_out):
+            if not po.startswith("ok"):
+                continue
+            op = sched_op.parent_op
+            qs = parse_qs(po)
+            ck.count("final_costs_judged_separately")
+            if cost.npu_scales_tensor is None:
+                flines.append(spec_line(arch, op, op.weights, op.bias, sched_op.kernel, cost.block_config, offs, cost.npu_weights_tensor, qs, True))
+            else:
+                flines.append(spec_line(arch, op, op.weights, op.bias, sched_op.kernel, cost.block_config, offs, cost.npu_scales_tensor, qs, False))
+            fmeta.append((op.name, offs, [k.depth for k in cost.npu_weights_tensor.encoded_ranges]))
+        fo = ck.model(flines)
+        for o, m in zip(fo, fmeta):
+            if o != "ok":
+                ck.count("final_cost_spec_fail")
+                ck.violation(f"{name}: operator {m[0]} is scheduled with depth slices {m[1]} but holds a tensor whose ranges start at channels {sorted(set(m[2]))}: {o[:160]}",
+                             {"network": name, "options": opts, "op": m[0], "ofm_depth_slices": m[1], "range_depths": m[2], "verdict": o[:1500],
+                              "replay": "compile network '%s' with %s; inspect sg.schedule.cost_map[op].npu_weights_tensor.encoded_ranges vs ofm_depth_slices" % (name, " ".join(opts))})
+        # (B) every emitted NPU operation with weights: channel cover of its stripe + its address ranges
+        tlines, tmeta = [], []
+        for st_ in res.streams:
+            if not st_.npu_ops or st_.op_to_cmd is None:
+                continue
+            for nop in st_.npu_ops:
+                cmd = st_.op_to_cmd.get(nop)
+                if isinstance(nop, api.NpuDmaOperation) and cmd is not None and isinstance(getattr(cmd, "in_tensor", None), wc.NpuWeightTensor):
+                    wr = ranges_of(cmd.in_tensor)
+                    tlines.append("wl_dma %d %d %d %d %s %d %d %d %d" % (int(cmd.in_tensor.address or 0), int(cmd.out_tensor.address or 0),
+                                  int(cmd.box.start_coord[-1]), len(wr), fmt_ranges(wr), nop.src.address, nop.src.length, nop.dest.address, nop.dest.length))
+                    tmeta.append((cmd.out_tensor.name, int(cmd.box.start_coord[-1]), int(cmd.box.end_coord[-1]), True, False, sorted({r[1] for r in wr})))
+                    ck.count("emitted_weight_dmas")
+                    continue
+                if not isinstance(cmd, NpuStripe) or cmd.weight_tensor is None or cmd.weight_box is None:
+                    continue
+                wtens = cmd.weight_tensor
+                src = wtens.src_tensor if wtens.src_tensor is not None else wtens
+                if not isinstance(src, wc.NpuWeightTensor):
+                    continue
+                pop = cmd.ps.primary_op
+                full_depth = int(pop.weights.values.shape[-1]) if pop.weights is not None and pop.weights.values is not None else 0
+                c0, c1 = int(cmd.weight_box.start_coord[-1]), int(cmd.weight_box.end_coord[-1])
+                wr = ranges_of(src)
+                buffered = wtens is not src
+                sep = cmd.scale_tensor is not None
+                sr = ranges_of(cmd.scale_tensor) if sep else []
+                tl = "wl_stripe %d %d %d %d %d %d %d %d %s %d %d %d %s %d %s %d %s" % (
+                    st_.arch.ncores, full_depth, c0, c1, int(src.address or 0), int(buffered), int(wtens.address or 0) if buffered else 0,
+                    len(wr), fmt_ranges(wr), int(sep), int(cmd.scale_tensor.address or 0) if sep else 0, len(sr), fmt_ranges(sr),
+                    len(nop.weights), " ".join(f"{a.address} {a.length}" for a in nop.weights),
+                    len(nop.biases), " ".join(f"{a.address} {a.length}" for a in nop.biases))
+                tlines.append(" ".join(tl.split()))
+                tmeta.append((pop.name, c0, c1, buffered, sep, sorted({r[1] for r in wr})))
+                ck.count("emitted_ops_with_weights")
+        to = ck.model(tlines)
+        for o, m, tl in zip(to, tmeta, tlines):
+            if o != "ok":
+                ck.count("emitted_op_fail")
+                ck.violation(f"{name}: the NPU operation emitted for {m[0]}, output channels [{m[1]}, {m[2]}), is handed ranges that do not cover exactly these channels / "
+                             f"are not the recorded sections: {o} (buffered={m[3]}, stand-alone scales={m[4]}, range start channels {m[5]})",
+                             {"network": name, "options": opts, "op": m[0], "channels": [m[1], m[2]], "verdict": o, "request": tl[:2500],
+                              "replay": "compile network '%s' with %s; compare npu_op.weights/biases and the stripe's weight_box with encoded_ranges" % (name, " ".join(opts))})
+        if prep_mismatch and not any(v[2] for v in ck.violations):
+            ck.violation("correspondence prepareScales vs _prepare_scale_and_bias broken on a compiled network", prep_mismatch[0], found_input=False)
         return res
 
     def conv_pair_net():
@@ -1061,12 +1173,15 @@ def main():
         r = _random.Random(ck.seed * 7919 + it)
         b = netgen.B(r, f"wnet{it}", r.choice(["int8", "int8", "uint8", "int16"]))
         h = r.choice([4, 8, 12])
+        pointwise = r.random() < 0.2       # 1x1 feature map: 1x1 convolutions become FullyConnected (type != source type)
+        if pointwise:
+            h = 1
         c_ = r.choice([8, 16, 32, 64])
         cur = b.input([1, h, h, c_])
         for _ in range(r.randint(1, 3)):
-            kind = r.choice(["conv", "conv", "conv", "dw", "fc"])
+            kind = r.choice(["conv", "conv", "conv", "dw", "fc"]) if not pointwise else "conv"
             if kind == "conv":
-                k = r.choice([1, 3, 3, 5])
+                k = r.choice([1, 3, 3, 5]) if not pointwise else 1
                 new = b.conv(cur, r.choice([24, 32, 40, 48, 64, 80, 96, 128, 160]), (k, k), wstyle=r.choice(["uniform", "uniform", "small", "sparse"]))
             elif kind == "dw":
                 new = b.dwconv(cur, (3, 3))
@@ -1082,7 +1197,14 @@ def main():
         data = netgen.serialize(b.finish([cur]))
         acc = r.choice(["ethos-u55-64", "ethos-u55-128", "ethos-u55-256", "ethos-u65-256", "ethos-u65-512", "ethos-u65-512", "ethos-u65-512"])
         wbytes = sum(int(np.prod(t.shape)) for t in b.net.tensors if t.data is not None)
-        opts = ["--accelerator-config", acc, "--arena-cache-size", str(int(wbytes * r.uniform(0.2, 1.5)) + 4000), "--optimise", r.choice(["Performance", "Size"])]
+        arena = int(wbytes * r.uniform(0.2, 1.5)) + 4000
+        if r.random() < 0.45:
+            # tight fast storage: the feature maps nearly fill it, so weight slices may not fit at all (no-buffering fallback)
+            esz = 2 if b.dtype == "int16" else 1
+            fm = [int(np.prod(t.shape)) * esz for t in b.net.tensors if t.data is None]
+            peak = max(x + y for x, y in zip(fm, fm[1:])) if len(fm) > 1 else fm[0]
+            arena = peak + int(r.choice([0, 256, 1024, 2048, 4096]) + wbytes * r.uniform(0.0, 0.25))
+        opts = ["--accelerator-config", acc, "--arena-cache-size", str(arena), "--optimise", r.choice(["Performance", "Size"])]
         if "u65" in acc and r.random() < 0.7:
             ini = common.REPO + "/ethosu/config_files/Arm/vela.ini"
             opts += ["--config", ini, "--system-config", "Ethos_U65_High_End", "--memory-mode", r.choice(["Dedicated_Sram", "Shared_Sram"])]
@@ -1093,7 +1215,8 @@ def main():
         + ck.counters.get("cache_hit", 0) + ck.counters.get("cache_hit-weights", 0) + ck.counters.get("pipe_multislice", 0)
     ck.finish({
         "evaluations": len(breqs) + len(rt_lines) + len(prep_reqs) + len(lines) + len(spec_reqs) + len(addr_reqs) + len(addr_spec) + len(addr_match) + len(seq_same_reqs)
-        + ck.counters.get("pipe_requests", 0) + ck.counters.get("pipe_buffered_ops", 0),
+        + ck.counters.get("pipe_requests", 0) + ck.counters.get("pipe_buffered_ops", 0) + ck.counters.get("final_costs", 0)
+        + ck.counters.get("emitted_ops_with_weights", 0) + ck.counters.get("emitted_weight_dmas", 0),
         "distinct_nontrivial": nontrivial,
         "rule": "case = one encode request (stub operator or scheduler-produced) or one request of a sequence against the compression cache; "
                 "non-trivial when it has >= 2 depth slices or runs on 2 cores or is answered from the cache; distinct by (case index, depth offsets, accelerator)",
